@@ -5,6 +5,7 @@ Input of pass k (what the OS answered): the REV line (revents + clock), the byte
 the connect plans.  Output of pass k: bytes written per client and per device connection, clients accepted and
 destroyed, device connects, the time-out handed to the next poll, descriptor / child ledger and the per-device
 state line at the next poll."""
+MODEL_TIMEOUT = int(__import__('os').environ.get('PMREPLAY_TIMEOUT', '300'))
 import re, os
 import pmgen, vlib
 
@@ -275,7 +276,9 @@ def replay_session(model_exe, enq_exe, sess, consts, version, short_circuit=Fals
     open(p2, "w").write(c2.text())
     tabs, nodes = conf_tables(enq_exe, p2)
     inp = "\n".join(defs(sess.cfg, tabs, nodes, consts, version, short_circuit) + L) + "\n"
-    rc, o, e = vlib.sh(["timeout", "-s", "KILL", "120", model_exe], shell=False, inp=inp.encode(), timeout=130)
+    # the extracted list functions are not tail recursive: histories with ~1 MiB client buffers need a deep stack
+    rc, o, e = vlib.sh(["bash", "-c", "ulimit -s unlimited 2>/dev/null || ulimit -s 4000000; exec timeout -s KILL %d \"$0\"" % MODEL_TIMEOUT, model_exe],
+                       shell=False, inp=inp.encode(), timeout=MODEL_TIMEOUT + 20)
     if rc != 0:
         return len(expect), (0, "model driver failed rc=%d: %s" % (rc, e[-800:]), None, None)
     got = parse_model(o)
